@@ -42,6 +42,8 @@ Proof.
   intros Hm.
   assert (Hmust : forall cs, In (c, m) (must cs) -> False).
   { intros cs H. apply in_must in H. destruct Hm; subst; discriminate. }
+  assert (Hlate : forall cs, In (c, m) (late cs) -> False).
+  { induction cs as [|c0 cs IH]; cbn [late]; [intros []|]. intros [E|H]; [inversion E; destruct Hm; subst; discriminate|auto]. }
   split.
   - intros v s [b| |gc ins outs]; cbn [op_prog fst].
     + unfold write_prog. intros H. now apply Hmust in H.
@@ -56,7 +58,7 @@ Proof.
       * now apply Hmust in H.
       * apply in_map_iff in H. destruct H as (ix & E & _). inversion E. destruct Hm; subst; discriminate.
       * destruct H as [E|[E|[E|[]]]]; inversion E; destruct Hm; subst; discriminate.
-      * destruct gc; rewrite in_app_iff in H; destruct H as [H|H]; auto; now apply Hmust in H.
+      * destruct gc; rewrite in_app_iff in H; destruct H as [H|H]; auto; [now apply Hmust in H|now apply Hlate in H].
   - intros s. unfold open_prog.
     destruct (recover_calls _ _) as [c3 rec]. cbn [fst]. rewrite !in_app_iff.
     intros [H|[H|H]].
@@ -76,23 +78,24 @@ Proof.
   induction p as [|[c m] p IH]; intros k s Hrun Hk Hm; [cbn in Hk; lia|].
   pose proof (run_ok_tail c m p s Hrun) as Htail. unfold exec_or in Htail.
   unfold prefix_state. destruct k as [|k].
-  - cbn [nth snd] in Hm. cbn [firstn run_prog]. destruct Hm as [->| ->]; reflexivity.
-  - cbn [nth] in Hm. cbn [length] in Hk. cbn [firstn run_prog].
-    unfold run in Hrun. cbn [run_prog] in Hrun.
+  - cbn [nth snd] in Hm. cbn [firstn run_prog retire_suppressed]. destruct Hm as [->| ->]; reflexivity.
+  - cbn [nth] in Hm. cbn [length] in Hk. cbn [firstn run_prog]. rewrite !retire_suppressed_none.
+    unfold run in Hrun. cbn [run_prog] in Hrun. rewrite retire_suppressed_none in Hrun.
     destruct (exec c s) as [s1|] eqn:E1.
     + destruct m; (apply IH; [exact Htail|lia|exact Hm]).
     + destruct m; try (apply IH; [exact Htail|lia|exact Hm]).
       * reflexivity.
       * exfalso. pose proof (deferred_stays p None n s EIo) as H. rewrite Hrun in H. now apply H.
+      * exfalso. pose proof (deferred_stays p None n s (late_err None)) as H. rewrite Hrun in H. now apply H.
 Qed.
 
 (* whatever single call fails — or none — every state the operation passes through is safe *)
-Lemma fault_leaves_recoverable s v o f k : Run s v -> accepted v o ->
-  Safe (fst (run_prog (firstn k (fst (op_prog v s o))) f O s None)) (Crash.Model.all_entries v) (op_batch v o).
+Lemma fault_leaves_recoverable s v o f k : Run s v -> op_fs_ok v o ->
+  Safe (fst (run_prog (firstn k (fst (op_prog v s o))) f O s None)) (op_base v o) (op_pend v o).
 Proof. intros R Ha. destruct (op_walk s v o R Ha) as [Hp _]. apply (Hp f k). Qed.
 
-Lemma fault_leaves_recoverable_end s v o j : Run s v -> accepted v o ->
-  Safe (fst (run_prog (fst (op_prog v s o)) (Some j) O s None)) (Crash.Model.all_entries v) (op_batch v o).
+Lemma fault_leaves_recoverable_end s v o j : Run s v -> op_fs_ok v o ->
+  Safe (fst (run_prog (fst (op_prog v s o)) (Some j) O s None)) (op_base v o) (op_pend v o).
 Proof.
   intros R Ha. pose proof (fault_leaves_recoverable s v o (Some j) (length (fst (op_prog v s o))) R Ha) as H.
   now rewrite firstn_all in H.
@@ -102,21 +105,15 @@ Lemma open_fault_leaves_recoverable s E f k : Good s E ->
   Safe (fst (run_prog (firstn k (fst (fst (open_prog s)))) f O s None)) E None.
 Proof. intros Hg. destruct (open_walk s E Hg) as [[Hp _] _]. apply (Hp f k). Qed.
 
-Lemma safe_set_eq s E E' : (forall e, In e E <-> In e E') -> Safe s E None -> Safe s E' None.
-Proof.
-  intros H HS img Hc. destruct (HS img Hc) as [Hr|(p & Hp & _)]; [|discriminate].
-  left. eapply rec_set_eq; eauto.
-Qed.
-
 (* recovery itself: whatever single call of KeyValueStore::open fails, after any history with any
-   crashes, every state it passes through still recovers to acknowledged + whole in-flight batches *)
+   crashes, every state it passes through still recovers to entries the history explains *)
 Lemma recovery_fault_recoverable c f k : reach c -> c_v c = None ->
-  exists ch, sub ch (c_fly c) /\
-    Safe (fst (run_prog (firstn k (fst (fst (open_prog (c_fs c))))) f O (c_fs c) None)) (concat (c_ack c) ++ concat ch) None.
+  exists E W, sel (c_hist c) W /\ explains W E /\
+    Safe (fst (run_prog (firstn k (fst (fst (open_prog (c_fs c))))) f O (c_fs c) None)) E None.
 Proof.
   intros Hr Hv. pose proof (inv_reach c Hr) as Hi. unfold inv in Hi. rewrite Hv in Hi.
-  destruct Hi as (E & Hg & (ch & Hsub & HE)). exists ch. split; [exact Hsub|].
-  apply (safe_set_eq _ E); [exact HE|]. now apply open_fault_leaves_recoverable.
+  destruct Hi as (E & Hg & ((W & Hsel & Hex) & _)). exists E, W. split; [exact Hsel|]. split; [exact Hex|].
+  now apply open_fault_leaves_recoverable.
 Qed.
 
 (* ------------------------------------------------------------------ what "safe" buys *)
@@ -141,4 +138,40 @@ Proof.
   intros HS Hc. destruct (HS img Hc) as [Hr|(p & Hp & Hr)].
   - exists E. split; [now left|]. apply recoverable_image_opens. eapply rec_good_image; eauto.
   - exists (E ++ p). split; [right; eauto|]. apply recoverable_image_opens. eapply rec_good_image; eauto.
+Qed.
+
+(* ------------------------------------------------------------------ going on after an error *)
+Lemma first_call_fault c p s : run_prog ((c, Must) :: p) (Some O) O s None = (s, Some EIo).
+Proof. reflexivity. Qed.
+
+(* the write() of the log fails (what `sst::log` turns into a refusal of every later append): the
+   store goes on from the same directory; that is a step *)
+Lemma error_at_log_write_is_step c v b : reach c -> c_v c = Some v -> accepted v (OpWrite b) ->
+  reach (mkCfg (c_fs c) (Some (fault_next v (OpWrite b))) (hist_next v (OpWrite b) false (c_hist c))).
+Proof.
+  intros Hr Hv Ha. eapply reach_step; [exact Hr|].
+  apply (step_op_fault c v (OpWrite b) O (c_fs c) EIo Hv Ha); [reflexivity|apply same_rel_refl].
+Qed.
+
+(* the first call of a flush (create_new of the next log) fails: likewise *)
+Lemma error_at_flush_start_is_step c v : reach c -> c_v c = Some v ->
+  reach (mkCfg (c_fs c) (Some v) (c_hist c)).
+Proof.
+  intros Hr Hv. eapply reach_step; [exact Hr|].
+  assert (Hrun : run_prog (fst (op_prog v (c_fs c) OpFlush)) (Some O) O (c_fs c) None = (c_fs c, Some EIo)).
+  { cbn [op_prog]. unfold flush_prog. destruct (exists_name _ _); reflexivity. }
+  exact (step_op_fault c v OpFlush O (c_fs c) EIo Hv I Hrun (same_rel_refl _)).
+Qed.
+
+(* the driver's error transitions are the transition system's *)
+Lemma xnext_err_v x o : x_v (xnext_err x o) = fault_next (x_v x) o.
+Proof. destruct o; reflexivity. Qed.
+
+Lemma xop_prog_cases x s o p flag : xop_prog x s o = Some (p, flag) ->
+  (p, flag) = op_prog (x_v x) s o \/ (p, flag) = ([], false).
+Proof.
+  destruct o as [b| |gc ins outs]; cbn [xop_prog].
+  - destruct (x_log_ok x); intros H; inversion H; auto.
+  - destruct (x_flush_ok x); [destruct (x_log_ok x); [|discriminate]|]; intros H; inversion H; auto.
+  - intros H; inversion H; auto.
 Qed.
